@@ -281,20 +281,62 @@ def parents_of(fn):
     return par
 
 
+def _predicates(test, positive, out):
+    """calls of is_*/has_* predicates whose truth value is implied when `test` is known to be `positive`"""
+    if isinstance(test, ast.UnaryOp) and isinstance(test.op, ast.Not):
+        _predicates(test.operand, not positive, out)
+    elif isinstance(test, ast.BoolOp):
+        if (isinstance(test.op, ast.And) and positive) or (isinstance(test.op, ast.Or) and not positive):
+            for v in test.values:
+                _predicates(v, positive, out)
+    elif isinstance(test, ast.Call) and callee_name(test) and callee_name(test).lower().startswith(('is_', 'has_')):
+        out.append(('' if positive else '!') + callee_name(test))
+
+
 def guard_calls(node, par, stop):
-    """names of predicates called in the enclosing if-tests: ['is_Feb_29th', '!is_leap_year', ...]"""
+    """predicates known to hold / not hold at `node`: from the enclosing if / else branches and from earlier guard clauses
+    (`if <test>: ... return`) of the blocks around it: ['is_Feb_29th', '!is_leap_year', ...]"""
     out = []
     cur = node
     while cur is not stop and cur in par:
         p = par[cur]
         if isinstance(p, ast.If):
-            neg = any(cur is s for s in p.orelse)
-            if neg or any(cur is s for s in p.body):
-                for n in ast.walk(p.test):
-                    if isinstance(n, ast.Call) and callee_name(n) and callee_name(n).lower().startswith(('is_', 'has_')):
-                        out.append(('!' if neg else '') + callee_name(n))
+            if any(cur is s for s in p.body):
+                _predicates(p.test, True, out)
+            elif any(cur is s for s in p.orelse):
+                _predicates(p.test, False, out)
+        for fld in ('body', 'orelse', 'finalbody'):
+            block = getattr(p, fld, None)
+            if isinstance(block, list) and any(cur is s for s in block):
+                for st in block:
+                    if st is cur:
+                        break
+                    if isinstance(st, ast.If) and st.body and isinstance(st.body[-1], (ast.Return, ast.Raise, ast.Continue, ast.Break)) \
+                            and not st.orelse:
+                        _predicates(st.test, False, out)
         cur = p
     return sorted(set(out))
+
+
+def candidate_roles(fn):
+    """{local: 'future' | 'past'}: what flows to <x>.future_value / .past_value, or is returned as (future, past)"""
+    roles = {}
+
+    def note(name, role):
+        roles[name] = role if roles.get(name, role) == role else 'either'
+
+    for n in ast.walk(fn):
+        if isinstance(n, ast.Assign):
+            for t in n.targets:
+                if isinstance(t, ast.Attribute) and t.attr in ('future_value', 'past_value'):
+                    for x in ast.walk(n.value):
+                        if isinstance(x, ast.Name):
+                            note(x.id, t.attr.split('_')[0])
+        elif isinstance(n, ast.Return) and isinstance(n.value, ast.Tuple) and len(n.value.elts) == 2 \
+                and all(isinstance(e, ast.Name) for e in n.value.elts):
+            note(n.value.elts[0].id, 'future')
+            note(n.value.elts[1].id, 'past')
+    return {k: v for k, v in roles.items() if v != 'either'}
 
 
 # ---------------------------------------------------------------------------------------------------
@@ -495,21 +537,20 @@ def rule_kinds(chk, idx, scoped):
                                     % (cls.name, fn.name, region))
             chk.observe('%s.%s[%s]: no ordering comparison against the reference in this branch; it is decided by the '
                         'tabulation rule C09.weekday alone' % (cls.name, fn.name, region))
-        counts = {}
+        roles = candidate_roles(fn)
+        judged = set()
         for node, op, a, b, ka, kb, reg in cmps:
             if region is not None and reg != region:
                 continue
             if not ({D, T} & (ka | kb)):
                 continue
-            guards = guard_calls(node, par, fn)
-            detail = '%s %s %s' % (kinds_str(ka), op, kinds_str(kb))
-            if guards:
-                detail += ' under [%s]' % ', '.join(guards)
-            if region is not None:
-                detail += ' in branch ' + reg
-            counts[detail] = counts.get(detail, 0) + 1
-            if counts[detail] > 1:
-                detail += ' (#%d)' % counts[detail]
+            # identity = the comparison itself (operator, kind of each operand, which candidate it guards); one instance per
+            # distinct comparison per function, however many syntactic copies the function contains
+            role = sorted({roles[x.id] for x in (a, b) if isinstance(x, ast.Name) and x.id in roles})
+            detail = '%s %s %s (%s candidate)' % (kinds_str(ka), op, kinds_str(kb), '/'.join(role) if role else 'a')
+            if detail in judged:
+                continue
+            judged.add(detail)
             construct = '%s.%s' % (cls.name, fn.name)
             chk.judge(not mixed(ka, kb), rid, mod.path, construct, detail,
                       '`%s %s %s` orders a date-only value (midnight) against a datetime that still carries its time of day: '
@@ -552,16 +593,15 @@ def rule_polarity(chk, idx, scoped):
         fwd, back = set(), set()
         counts = {}
         for p in sorted(ps, key=lambda p: p['line']):
-            detail = 'move %+d %s under candidate %s reference' % (p['amount'], p['unit'], p['op'])
-            if p['guards']:
-                detail += ' [%s]' % ', '.join(p['guards'])
+            feb29 = any(g.lower().startswith('is_feb_29') for g in p['guards'])
+            detail = 'move %+d %s under candidate %s reference%s' % (p['amount'], p['unit'], p['op'],
+                                                                     ' [29 February]' if feb29 else '')
             if not p['same']:
                 detail += ' (tested candidate differs)'
-            counts[detail] = counts.get(detail, 0) + 1
-            if counts[detail] > 1:
-                detail += ' (#%d)' % counts[detail]
             msgs = polarity_verdict(p)
-            chk.judge(not msgs, rid, mod.path, construct, detail, '; '.join(msgs), p['line'])
+            if detail not in counts:          # one instance per distinct move per function
+                chk.judge(not msgs, rid, mod.path, construct, detail, '; '.join(msgs), p['line'])
+            counts[detail] = 1
             # role of a variable = role given by the comparison that guards its move
             (fwd if p['op'] in ('<', '<=') else back).add(p['var'])
         # ---- wiring
